@@ -1130,7 +1130,10 @@ def optimum_threshold(mu0,mu1,S0,S1, modulation: Literal['ook', 'ppm'], M=None):
     s1=S1**0.5
     s0=S0**0.5
 
-    threshold = 1/(S1-S0)*(mu0*S1 - mu1*S0 + s1*s0*np.sqrt((mu1-mu0)**2 + 2*(S1-S0)*np.log(s1/s0*(M-1))))
+    # same root as 1/(S1-S0)*(mu0*S1 - mu1*S0 + s1*s0*sqrt(...)), written without the division by (S1-S0)
+    # so that equal (or nearly equal) variances are handled too
+    L = np.log(s1/s0*(M-1))
+    threshold = mu0 + S0*((mu1-mu0)**2 + 2*S1*L) / ((mu1-mu0)*S0 + s1*s0*np.sqrt((mu1-mu0)**2 + 2*(S1-S0)*L))
     return threshold
 
 def theory_BER(
